@@ -15,8 +15,7 @@ import os
 from collections import Counter
 
 from .. import core
-from . import C04
-from .C04 import FAMS, STRUCTURAL, PAR, cfg_for, gen_vectors, nltable_selfcheck, replay_and_validate
+from .C04 import FAMS, par, gen_vectors, nltable_selfcheck, replay_and_validate
 
 LEVEL = "model_checking"
 KINDS = {0: "air", 1: "surf"}
@@ -77,10 +76,10 @@ def check(run):
     # M: Local invariant on the structural families
     m = core.tlc_ok("mc/MC_CPR", cfg=os.path.join(core.SPEC, "mc", "MC_CPR_local_thorough.cfg" if thorough
                                                   else "MC_CPR_local.cfg"),
-                    workers=8 if thorough else PAR, timeout=3000, xmx="3g", env={"VERIF_SEED": run.seed})
+                    workers=par(run), timeout=3000, xmx="3g", env={"VERIF_SEED": run.seed})
     run.add_tlc(m)
     # G
-    nslices = 8 if thorough else 4
+    nslices = 16 if thorough else 4
     vec_paths, gres = gen_vectors(run, "gen/Gen_CPR05", to_vector05, nslices, "c05")
     vec_by_id = {}
     fam_cov = Counter()
